@@ -299,8 +299,20 @@ def operations():
         "rolling_sum": lambda a: a.hdc.rolling.sum(3),
         "zonal_mean": lambda a: a.hdc.zonal.mean(zones, [0, 1, 2]),
         "zonal_mean_f64": lambda a: a.hdc.zonal.mean(zones, [0, 1, 2], dtype="float64", dim_name="zz", name="zm"),
+        # float32 cubes with scalar arguments that float32 cannot represent (nodata -9999.9, s = 10.1): in memory the
+        # scalars arrive as Python numbers, under dask as 0-d arrays - the loop chosen for them must not differ
+        "whits_f32_fracnodata": lambda a: _f32(a).hdc.whit.whits(nodata=-9999.9, s=10.1),
+        "whits_p_f32_fracnodata": lambda a: _f32(a).hdc.whit.whits(nodata=-9999.9, s=10.1, p=0.9),
+        "whitsvc_f32_fracnodata": lambda a: _f32(a).hdc.whit.whitsvc(nodata=-9999.9, srange=sr),
+        "whitswcv_f32_fracnodata": lambda a: _f32(a).hdc.whit.whitswcv(nodata=-9999.9, srange=sr, robust=False),
     }
     return da, O
+
+
+def _f32(a):
+    """The cube as float32 with its missing cells written as float32(-9999.9) (not a float32-representable number)."""
+    f = a.astype("float32")
+    return f.where(a != -9999, np.float32(-9999.9)).assign_attrs(a.attrs)
 
 
 NEEDS_TIME_FIRST = set()
@@ -484,6 +496,16 @@ def joint_pairs():
         "whitsvc_lc": (lambda a: a.hdc.whit.whitsvc(nodata=-9999, lc=lc, p=0.9), lambda a: a.hdc.whit.whitsvc(nodata=-9999, lc=lc_b, p=0.9)),
         "whitswcv_robust": (lambda a: a.hdc.whit.whitswcv(nodata=-9999, srange=sr, robust=False), lambda a: a.hdc.whit.whitswcv(nodata=-9999, srange=sr, robust=True)),
         "whitint": (lambda a: a.hdc.whit.whitint(la, tmpl), lambda a: a.hdc.whit.whitint(lb, tmpl_b)),
+        "whitint_labels": (lambda a: a.hdc.whit.whitint(la, tmpl), lambda a: a.hdc.whit.whitint(lb, tmpl)),
+        "whitint_template": (lambda a: a.hdc.whit.whitint(la, tmpl), lambda a: a.hdc.whit.whitint(la, tmpl_b)),
+        "spi_groups_window": (lambda a: a.hdc.algo.spi(groups=[0, 1, 0, 1, 0, 1]), lambda a: a.hdc.algo.spi(groups=[0, 1, 0, 1, 0, 1], calibration_begin="2000-01-11")),
+        "spi_nodata": (lambda a: a.hdc.algo.spi(nodata=-9999), lambda a: a.hdc.algo.spi(nodata=0)),
+        "rolling_sum_nodata": (lambda a: a.hdc.rolling.sum(2, nodata=-9999), lambda a: a.hdc.rolling.sum(2, nodata=0)),
+        "mean_grp_nodata": (lambda a: a.hdc.algo.mean_grp(ga, nodata=-9999), lambda a: a.hdc.algo.mean_grp(ga, nodata=0)),
+        "whits_nodata": (lambda a: a.hdc.whit.whits(nodata=-9999, s=10.0), lambda a: a.hdc.whit.whits(nodata=0, s=10.0)),
+        "whitswcv_p": (lambda a: a.hdc.whit.whitswcv(nodata=-9999, srange=sr, p=0.9), lambda a: a.hdc.whit.whitswcv(nodata=-9999, srange=sr, p=0.1)),
+        "zonal_mean_dtype": (lambda a: a.hdc.zonal.mean(zones, [0, 1, 2], name="zm"), lambda a: a.hdc.zonal.mean(zones, [0, 1, 2], name="zm", dtype="float64")),
+        "zonal_mean_zone_nodata": (lambda a: a.hdc.zonal.mean(zones, [0, 1, 2], name="zm"), lambda a: a.hdc.zonal.mean(zones.assign_attrs(nodata=1), [0, 1, 2], name="zm")),
         "spi_groups": (lambda a: a.hdc.algo.spi(groups=[0, 1, 0, 1, 0, 1]), lambda a: a.hdc.algo.spi(groups=[0, 0, 0, 1, 1, 1])),
         "spi_window": (lambda a: a.hdc.algo.spi(calibration_end="2000-01-31"), lambda a: a.hdc.algo.spi(calibration_begin="2000-01-11")),
         "mean_grp": (lambda a: a.hdc.algo.mean_grp(ga), lambda a: a.hdc.algo.mean_grp(gb)),
